@@ -239,8 +239,10 @@ class SimpleOperationExecutor:
         if self._build_dirs.is_removed_norm_case(norm_cased_dir):
             return False
         elif os.path.isdir(norm_cased_dir):
-            self._build_dirs.handle_norm_cased_dir_exists(norm_cased_dir)
-            return True
+            # Check again whether the directory was (virtually) removed, in
+            # case another thread removed it in the meantime
+            return self._build_dirs.confirm_norm_cased_dir_exists(
+                norm_cased_dir)
         else:
             return False
 
